@@ -16,6 +16,17 @@ fn main() {
     if args[1] == "solo" {
         std::process::exit(explore::checks::solo_main(&reg, &args[2..]));
     }
+    if args[1] == "c18aux" {
+        // write the value-directed seeds for the C18 corpus
+        let seed: u64 = std::env::var("VERIF_SEED").ok().and_then(|s| s.parse::<i128>().ok()).map(|v| v as u64).unwrap_or(0);
+        let v = explore::checks::c18aux::jump_special_seeds(&reg, seed);
+        let mut text = String::new();
+        for (t, op, s) in v {
+            text.push_str(&format!("{} {} {}\n", t, op, explore::evidence::hex(&s)));
+        }
+        std::fs::write(&args[2], text).expect("write aux file");
+        std::process::exit(0);
+    }
     let id = args[1].clone();
     if args[2] == "--replay" {
         let path = args.get(3).expect("replay file");
